@@ -15,8 +15,9 @@ func init() { register("C13", "other", checkC13) }
 
 func checkC13(w *World, r *Result) {
 	r.Explanation = "Decides structural necessary conditions on analysis/httpapi: AGR-C13a every types.Type-typed contract slot that resolveTypes resolves back through the shared analysis is also collected into the list that analysis is built from (else the slot stays nil unless another route mentions the type); AGR-C13b every exported field of Endpoint/Contract/Form/TypedParam has a writer in httpapi and a reader in the TypeScript client generator; SHP-C13v the verb set contains GET, PUT, POST, DELETE; SHP-C13n a registration is skipped by arity only when it has fewer than two arguments; SHP-C13p between URL resolution and the append the only filter is the prefix test; SHP-C13h the handler resolution covers method/package selector, identifier and function literal, and a declared handler's body is selected by its declaration position (unique), not by name; SHP-C13o endpoints are only appended, inside one syntax walk that does not descend into a recorded registration (source order, one entry each); SHP-C13r the return statement parser reads JSON/JSONPretty's 2nd and Blob's 3rd argument and sets the blob flag with it; OBL-* no unguarded partial operation in the package. Does not decide: one entry per registration and constant folding as value-level facts about arbitrary programs."
-	r.Rules = []string{"AGR-C13a", "AGR-C13b", "SHP-C13v", "SHP-C13n", "SHP-C13p", "SHP-C13h", "SHP-C13o", "SHP-C13r", "SHP-C13g", "SHP-C13q", "SHP-C13e", "SHP-C13s", "SHP-C13u", "OBL-*", "MEMO-KEY", "PKG-ID", "ALIAS-APPEND", "STATE-PKG", "LIT-VALUE"}
+	r.Rules = []string{"AGR-C13a", "AGR-C13b", "SHP-C13v", "SHP-C13n", "SHP-C13p", "SHP-C13h", "SHP-C13o", "SHP-C13r", "SHP-C13g", "SHP-C13q", "SHP-C13e", "SHP-C13s", "SHP-C13u", "OBL-*", "MEMO-KEY", "PKG-ID", "ALIAS-APPEND", "STATE-PKG", "LIT-VALUE", "IDENT-SCOPE", "METHOD-SET"}
 	litValueRule(w, r, func(rel string) bool { return rel == "analysis/httpapi" || rel == "analysis" })
+	goTypesAPIRule(w, r, func(rel string) bool { return rel == "analysis/httpapi" })
 	statePkgRule(w, r, func(rel string) bool { return rel == "analysis/httpapi" || rel == "analysis" })
 	aliasAppendRule(w, r, func(rel string) bool { return rel == "analysis/httpapi" })
 	memoKeyRule(w, r, func(rel string) bool { return rel == "analysis/httpapi" })
